@@ -10,7 +10,7 @@ namespace Tickit
 /-- `add_wakeup` overwrites the component's single entry and touches no other. -/
 theorem addWakeup_lookup (w : Wakeups) (c c' : Comp) (t : SimTime) :
     alookup (addWakeup w c t) c' = if c' = c then some t else alookup w c' := by
-  exact alookup_upsert w c c' t
+  exact ms_alookup_upsert w c c' t
 
 theorem addWakeup_unique (w : Wakeups) (h : UniqueKeys w) (c : Comp) (t : SimTime) :
     UniqueKeys (addWakeup w c t) := by
